@@ -24,14 +24,19 @@ D20_KEY = "idc_star:outcome-and-condition-on-one-variable-merged"
 D21_KEY = "idc_star:reflexive-subscript-node-lookup"
 D22_KEY = "idc_star:zero-joint-estimand-normalised"
 D23_KEY = "idc_star:minus-subscript-for-a-variable-the-event-sets-to-plus"
+D24_KEY = "idc_star:remaining-condition-downstream-of-an-exchanged-condition-keeps-its-world"
 
 
-def polarity_lost(ev, expr) -> bool:
-    """The output carries a '-V' subscript although every atom of the event gives V the value '+V' (1)."""
+def polarity_lost(ev, expr, some_world=False):
+    """The output carries a '-V' subscript although every atom of the event gives V the value '+V' (1).
+    With some_world=True: although SOME atom of the event gives V the value 1 (V occurs in several worlds with
+    different values); returns the set of such variables."""
     from y0.dsl import CounterfactualVariable, Fraction, Probability, Product, Sum
 
     env, amb = event_env(ev)
     plus = {v for v, val in env.items() if val == 1 and v not in amb}
+    if some_world:
+        plus = {v for v, _, val in ev if val == 1}
     if not plus:
         return False
 
@@ -49,6 +54,8 @@ def polarity_lost(ev, expr) -> bool:
             return walk(e.expression)
         return False
 
+    if some_world:
+        return {v for v in plus if polarity_lost([(v, (), 1)], expr)}
     return walk(expr)
 _cstate = {"patched": False}
 
@@ -75,11 +82,38 @@ def _install_conditional_wrapper():
     _cstate["patched"] = True
 
 
+def _install_rule2_wrapper():
+    """Harness-side wrapper around cf_rule_2_of_do_calculus_applies: flags D24 when a condition is exchanged for an
+    intervention while another condition lies downstream of it in the counterfactual graph (IDC* then subscripts
+    the outcomes only; the downstream condition would have to move to the intervened world as well).  In corrected
+    mode such an exchange is refused, so that IDC* falls through to the plain conditional of the joint."""
+    from y0.algorithm.identify import idc_star as mod_or_fn
+    import importlib
+
+    mod = importlib.import_module("y0.algorithm.identify.idc_star")
+    if _cstate.get("rule2"):
+        return
+    orig = mod.cf_rule_2_of_do_calculus_applies
+
+    def wrapper(cf_graph, outcomes, condition, **kw):
+        res = orig(cf_graph, outcomes, condition, **kw)
+        others = list(kw.get("other_conditions") or ())
+        if res and any(o != condition and condition in cf_graph.ancestors_inclusive(o) for o in others):
+            c07.TRACE[D24_KEY] = True
+            if c07._state["corrected"]:
+                return False
+        return res
+
+    mod.cf_rule_2_of_do_calculus_applies = wrapper
+    _cstate["rule2"] = True
+
+
 def run_idc_star(g: GSpec, gamma, delta, corrected=False):
     from y0.algorithm.identify import Unidentifiable, idc_star
 
     c07._install_wrappers()
     _install_conditional_wrapper()
+    _install_rule2_wrapper()
     c07.TRACE.clear()
     c07._state["corrected"] = corrected
     try:
@@ -152,6 +186,27 @@ def explain(g, gamma, delta, trace, model, den, timeout_ms, expr):
         flags = sorted(set(flags) | {c07.D19_KEY})
     if expr is not None and polarity_lost(ev, expr):
         flags = sorted(set(flags) | {D23_KEY})
+    elif expr is not None and D23_KEY not in flags:
+        # V occurs in several worlds with different values and the output writes '-V': the same notation defect,
+        # attributed only if reading those subscripts as V = 1 makes the output right (decided by the solver)
+        cand = polarity_lost(ev, expr, some_world=True)
+        if cand:
+            joint = model.prob_cw(TARGET, atoms_for_model(gamma + delta))
+            pd = model.prob_cw(TARGET, atoms_for_model(delta))
+            envs, _ = c07.eval_envs(expr, gamma + delta)
+            ok = envs is not None and not pd.is_zero()
+            for env in envs or []:
+                try:
+                    lhs = den.ev(expr, env, {v: 1 for v in cand})
+                except Unsupported:
+                    ok = False
+                    break
+                verdict, _, _ = Decider(model.constraints, timeout_ms, model.params).differ(lhs, joint / pd)
+                if verdict != "unsat":
+                    ok = False
+                    break
+            if ok:
+                flags = sorted(set(flags) | {D23_KEY})
     if {v for v, _, _ in gamma} & {v for v, _, _ in delta}:
         # the same base variable occurs (in different worlds) among the outcomes and among the conditions: when the
         # counterfactual graph merges the two nodes, get_new_outcomes_and_conditions keeps only one role
